@@ -17,48 +17,7 @@ import keyword
 BUILTINS = set(dir(builtins)) | set(keyword.kwlist)
 
 
-def _locals_of(fn: ast.AST) -> set[str]:
-    """Names bound inside fn (any nesting level of comprehensions/loops), excluding parameters of
-    fn itself, global/nonlocal declarations and nested function/class names."""
-    params = set()
-    a = fn.args
-    for x in a.posonlyargs + a.args + a.kwonlyargs:
-        params.add(x.arg)
-    if a.vararg:
-        params.add(a.vararg.arg)
-    if a.kwarg:
-        params.add(a.kwarg.arg)
-    declared = set()
-    bound = set()
-    nested_params = set()
-
-    def walk(node, top=False):
-        for ch in ast.iter_child_nodes(node):
-            if isinstance(ch, (ast.Global, ast.Nonlocal)):
-                declared.update(ch.names)
-            if isinstance(ch, (ast.FunctionDef, ast.AsyncFunctionDef, ast.Lambda)):
-                aa = ch.args
-                for x in aa.posonlyargs + aa.args + aa.kwonlyargs:
-                    nested_params.add(x.arg)
-                if aa.vararg:
-                    nested_params.add(aa.vararg.arg)
-                if aa.kwarg:
-                    nested_params.add(aa.kwarg.arg)
-                walk(ch)
-                continue
-            if isinstance(ch, ast.ClassDef):
-                continue
-            if isinstance(ch, ast.Name) and isinstance(ch.ctx, ast.Store):
-                bound.add(ch.id)
-            if isinstance(ch, ast.ExceptHandler) and ch.name:
-                bound.add(ch.name)
-            if isinstance(ch, (ast.Import, ast.ImportFrom)):
-                for al in ch.names:
-                    declared.add((al.asname or al.name).split(".")[0])
-            walk(ch)
-    walk(fn)
-    return {n for n in bound if n not in params and n not in declared and n not in nested_params
-            and n not in BUILTINS and not n.startswith("__")}
+from ..core.alpha import locals_of as _locals_of  # one definition of 'local' for the twin generator and the alpha-normaliser
 
 
 class _Renamer(ast.NodeTransformer):
